@@ -155,8 +155,7 @@ func (self Value) GetByPath(pathes ...Path) Value {
 			if i == len(pathes)-1 && err == errNotFound {
 				return Value{errNotFoundLast(unsafe.Pointer(uintptr(self.v)+uintptr(start)), tt), nil}
 			}
-			en := err.(Node)
-			return errValue(en.ErrCode().Behavior(), "", err)
+			return errValue(errCodeOf(err), "", err)
 		}
 	}
 
